@@ -450,6 +450,10 @@ def run(ck):
     ck.need("matched_must", 3000)
     ck.need("interleavings", 50, "fewer than 50 distinct interleaving orders of live frames")
     ck.need("control_runs", 20)
+    from vf.props import sessions
+
+    sessions.run_into(ck, "C02", 32 if quick else 300)
+    ck.need("late_bound_function_judgements", 20, "no session block judged the function that was unfindable in an earlier block")
     ck.need("twin_cases", 1)
     ck.need("same_definition_site_cases", 1)
     ck.need("prestart_programs", 50)
